@@ -169,7 +169,8 @@ def make_op(rng, tag, tfiles):
                                      'tigerxml'])
             bank = small_bank(rng, k or rng.randint(1, 4),
                               cont=fmt == 'brackets')
-            text = {'export': lambda: codec.export_encode(bank),
+            text = {'export': lambda: codec.export_encode(
+                        bank, v4=rng.random() < 0.4),
                     'brackets': lambda: codec.brackets_encode(bank),
                     'discobrackets': lambda: codec.discobrackets_encode(bank),
                     'tigerxml': lambda: codec.tigerxml_encode(bank)}[fmt]()
@@ -482,6 +483,20 @@ def run_session(ctx, si, rng):
                          'it is read: %s | after the whole file has been '
                          'read: %s' % (op['names'], str(streamed)[:300],
                                        str(alone)[:300]))
+            for pre in ('export', 'tigerxml'):
+                written = norm(c18_ops.execute(
+                    R, dict(copy.deepcopy(op), b=None, prewrite=pre), tmp,
+                    set()))
+                ctx.hook('pipeline with the trees written once before')
+                if str(written).split('|other|')[0] != \
+                        str(alone).split('|other|')[0]:
+                    ctx.fail('C18:writing-a-tree-changes-later-results:'
+                             + '+'.join(op['names']), case,
+                             'every tree written in %s format before the '
+                             'transformations (%s): %s | without: %s'
+                             % (pre, op['names'], str(written)[:300],
+                                str(alone)[:300]))
+                    break
             if op['b'].get('fmt') and out[:1] != ['EXCEPTION']:
                 solo = norm(c18_ops.execute(
                     R, {'k': 'pipeline', 'a': op['b'], 'names': [],
